@@ -233,8 +233,15 @@ class NamedObject:
 
           if isinstance( u, NamedObject ):
             ud = u._dsl
-            if hasattr( ud, "full_name" ) and ud.parent_obj is s:
-              continue # named by an earlier assignment of this list
+            if hasattr( ud, "full_name" ) and hasattr( ud, "parent_obj" ):
+              if ud.parent_obj is s and ud._my_name == name:
+                continue # named by an earlier assignment of this list
+              # s.ws = [ s.a, s.b ] or s.outs = [ m.out for m in s.subs ]: one
+              # object under two names would be renamed or simulated as two
+              # independent values
+              raise FieldReassignError(f"The attempt to put hardware construct into list field {name} is illegal:\n"
+                                       f" - it already is field {ud.my_name} of top{repr(ud.parent_obj)[1:]}. "
+                                       f"Declare another signal and connect the two instead.")
 
             ud.parent_obj = s
             ud.level      = sd.level + 1
